@@ -1,16 +1,18 @@
 (* Property C06: < is a strict total order consistent with =, and sorting follows it.
-   Statements only.  PARTIAL: the theorems cover (i) the construction every Go
-   Less method follows - kind tie-break over per-kind comparisons, offset-then-
-   content, element-wise lexicographic lifting - proving that it yields a strict
-   total order whose Eq is identity whenever the pieces are, (ii) the side
-   conditions on the Kind() numbers, re-instantiated on the table regenerated
-   from the running code on every check, and (iii) the specification order of
-   canonical values.  The closure of the recursion through generic sets sorted
-   by the order itself, and the Dict/Relation/UnionSet comparisons, are not
-   proved; they are covered by the implementation-side oracle (trichotomy,
-   transitivity, derived operators, sort stability over the whole value pool)
-   and by the correspondence of [rless] with the implementation. *)
-From Arrai Require Import Base.Val Spec.SetAlg Eval.Interp Proofs.ValOrder Rep.Less Gen.Kinds Proofs.LessP Proofs.SortP.
+   Statements only.  The theorems cover (i) the executable model of the Go
+   ordering (Rep/Less.v rcmp / rless: every Less method, incl. Dict, Relation and
+   UnionSet, transcribed) - total on every value the Go representations can hold,
+   irreflexive, consistent with =, asymmetric, total and transitive for every fuel
+   above 2 * depth + 1, the recursion through sets "sorted by the order itself"
+   closed by nested induction on the depth (C06_go_order_is_strict_total_order);
+   (ii) the construction every Go Less method follows - kind tie-break over
+   per-kind comparisons, offset-then-content, element-wise lexicographic lifting;
+   (iii) the side conditions on the Kind() numbers, re-instantiated on the table
+   regenerated from the running code on every check; (iv) the specification
+   order of canonical values; (v) sorting by any comparison with the order laws
+   is canonical.  Outside the domain of (i): hand-written nested @neg tuples,
+   where the model - like the code - panics (C06_go_order_nested_neg_refuted). *)
+From Arrai Require Import Base.Val Spec.SetAlg Eval.Interp Proofs.ValOrder Rep.Less Gen.Kinds Proofs.LessP Proofs.SortP Proofs.LessTotalP.
 
 (* the bundle: reflexive-Eq, Eq is identity, antisymmetric, transitive *)
 Theorem C06_kind_tiebreak_is_total_order :
@@ -73,9 +75,96 @@ Theorem C06_spec_sort_depends_on_members_only :
 Proof. exact vsort_same_members. Qed.
 Print Assumptions C06_spec_sort_depends_on_members_only.
 
+(* THE GO ORDER IS A STRICT TOTAL ORDER.  For all canonical values a, b, c that the Go
+   representations can hold (go_ok: sugar tuples well typed, no two sequence items at one
+   index, no hand-written nested @neg) and every fuel above twice their depth, with the
+   Kind() numbers of the running code: a < b is defined (no panic, no fuel shortage);
+   never a < a; if neither a < b nor b < a then a = b; a < b excludes b < a; distinct
+   values are ordered one way or the other; < is transitive. *)
+Theorem C06_go_order_is_strict_total_order :
+  forall a b c f,
+    Canon a -> go_ok a = true -> Canon b -> go_ok b = true -> Canon c -> go_ok c = true ->
+    (2 * Nat.max (vdepth a) (Nat.max (vdepth b) (vdepth c)) + 1 <= f)%nat ->
+    let lt := rless (knum_of kind_table) f in
+    (exists r, lt a b = ROk r) /\
+    lt a a = ROk false /\
+    (lt a b = ROk false -> lt b a = ROk false -> a = b) /\
+    (lt a b = ROk true -> lt b a = ROk false) /\
+    (a <> b -> lt a b = ROk true \/ lt b a = ROk true) /\
+    (lt a b = ROk true -> lt b c = ROk true -> lt a c = ROk true).
+Proof.
+  exact (fun a b c f Ca Ga Cb Gb Cc Gc =>
+           go_less_laws kind_table current_kinds_ok a b c f (conj Ca Ga) (conj Cb Gb) (conj Cc Gc)).
+Qed.
+Print Assumptions C06_go_order_is_strict_total_order.
+
+(* the same for any Kind() table with the side conditions of C06_kind_numbers_injective,
+   as the order bundle on the comparison itself *)
+Theorem C06_go_order_bundle :
+  forall t, check_kinds t = true ->
+  forall a b c f, Canon a /\ go_ok a = true -> Canon b /\ go_ok b = true -> Canon c /\ go_ok c = true ->
+    (2 * Nat.max (vdepth a) (Nat.max (vdepth b) (vdepth c)) + 1 <= f)%nat ->
+    (exists r, rcmp (knum_of t) f a b = ROk r) /\
+    ordR (fun x y => match rcmp (knum_of t) f x y with ROk r => r | _ => Eq end) a b c.
+Proof. exact go_order_total. Qed.
+Print Assumptions C06_go_order_bundle.
+
+(* SETS SORTED BY THE ORDER ITSELF.  The member sequence a Go comparison walks (sort.Slice /
+   OrderedElements by Less; insertion sort in the model) is strictly increasing in the Go order,
+   has no repetition, and is the same for every enumeration order of the same members: so the
+   comparison of two sets does not depend on hash seeds or construction order *)
+Theorem C06_go_order_sorted_enumeration :
+  forall l f, Canon (VSet l) /\ go_ok (VSet l) = true -> (2 * vdepth (VSet l) + 1 <= f)%nat ->
+    let c := fun x y => match rcmp (knum_of kind_table) f x y with ROk r => r | _ => Eq end in
+    gsorted c (isort c l) /\ NoDup (isort c l) /\
+    forall l', NoDup l' -> (forall x, In x l' <-> In x l) -> isort c l' = isort c l.
+Proof. exact (go_enumeration_sorted kind_table current_kinds_ok). Qed.
+Print Assumptions C06_go_order_sorted_enumeration.
+
+(* outside that domain: the hand-written (@neg: (@neg: 1)) has the Kind() number of a
+   number, and comparing it with a number panics in the model as it does in the code
+   (open finding KF-C06-01, witness re-run on every check) *)
+Theorem C06_go_order_nested_neg_refuted :
+  exists a b, Canon a /\ Canon b /\ go_ok a = false /\
+    forall f, rless (knum_of kind_table) (S f) a b = RPanic.
+Proof.
+  exists (VTup [(n_neg, VTup [(n_neg, vint 1)])]), (vint 2).
+  split; [reflexivity|]. split; [reflexivity|]. split; [reflexivity|].
+  exact (fun f => nested_neg_panics (knum_of kind_table) f eq_refl).
+Qed.
+Print Assumptions C06_go_order_nested_neg_refuted.
+
+(* the other two exclusions of go_ok are needed as well: two sequence items at one index
+   (no Go representation: open finding of C01) make two different values incomparable,
+   and a sugar tuple with a fractional index (rejected by NewTuple) makes the model panic *)
+Theorem C06_go_order_domain_is_tight :
+  (exists a b, Canon a /\ Canon b /\ a <> b /\ go_ok a = false /\
+     rless (knum_of kind_table) 9 a b = ROk false /\ rless (knum_of kind_table) 9 b a = ROk false) /\
+  (exists a, Canon a /\ go_ok a = false /\ rless (knum_of kind_table) 9 a a = RPanic).
+Proof.
+  split.
+  - exists (VSet [vitem 0 (vint 1); vitem 0 (vint 2)]), (VSet [vitem 0 (vint 1)]).
+    split; [reflexivity|]. split; [reflexivity|]. split; [discriminate|]. vm_compute. repeat split.
+  - exists (VSet [vpair n_char (VNum (NHalf 0)) (vint 97)]).
+    split; [reflexivity|]. vm_compute. split; reflexivity.
+Qed.
+Print Assumptions C06_go_order_domain_is_tight.
+
+(* the hypotheses are satisfiable by non-trivial values: a dict with two values under one key,
+   a union set of three buckets, a relation; and the model orders them Dict < UnionSet < Relation *)
+Example C06_go_order_example :
+  let a := VSet [ventry (vint 1) (vint 2); ventry (vint 1) (vint 3)] in
+  let b := VSet [vint 1; vpair n_char (vint 0) (vint 97); VTup [([97], vint 1)]] in
+  let c := VSet [VTup [([97], vint 1); ([98], vstr [120])]; VTup [([97], vint 2); ([98], vint 0)]] in
+  (Canon a /\ go_ok a = true) /\ (Canon b /\ go_ok b = true) /\ (Canon c /\ go_ok c = true) /\
+  (2 * Nat.max (vdepth a) (Nat.max (vdepth b) (vdepth c)) + 1 <= 9)%nat /\
+  rless (knum_of kind_table) 9 a b = ROk true /\ rless (knum_of kind_table) 9 b c = ROk true /\
+  rless (knum_of kind_table) 9 a c = ROk true /\ rless (knum_of kind_table) 9 c a = ROk false.
+Proof. vm_compute. repeat split; try reflexivity. Qed.
+
 (* non-vacuity / probes of the property text on the model of the Go order *)
 Example C06_probe :
-  rless (knum_of kind_table) 20 (VSet []) (VTup [([97], vint 1)]) = Some true /\
-  rless (knum_of kind_table) 20 (VTup [([97], vint 1)]) (VSet []) = Some false /\
-  rless (knum_of kind_table) 20 (vstr [97]) (VSet (vseq_from n_char 1 [vint 97])) = Some true.
+  rless (knum_of kind_table) 20 (VSet []) (VTup [([97], vint 1)]) = ROk true /\
+  rless (knum_of kind_table) 20 (VTup [([97], vint 1)]) (VSet []) = ROk false /\
+  rless (knum_of kind_table) 20 (vstr [97]) (VSet (vseq_from n_char 1 [vint 97])) = ROk true.
 Proof. vm_compute. repeat split. Qed.
